@@ -85,6 +85,22 @@ the exact comparison binning_eqb.  Model/BinningEq.v, Proofs/BinningEqP.v: the c
 C10_cache_comparison_sufficient / C10_cache_comparison_exact_only: the cache is correct for every patch exactly when `equal` implies
 exactly equal closed side and edges; C10_tolerant_equality_refuted: every np.allclose-like comparison with a positive tolerance accepts two
 valid binnings that put a redshift on an edge into different bins.
+
+Calls that only LOOK, made between two measurements with the same configuration object ('look' family, harness/props/c10_looks.py):
+create the configuration, measure (HistData, autocorrelate, crosscorrelate), then a random sequence of library calls on the results, on
+the configuration and on what they hand out - plot with every style / xoffset / indicate_zero / scale_dz / ax / colour / label / plot_kwargs,
+plot_corr (matplotlib, Agg), repr / str / format, len / iteration / indexing, == / != / is_compatible, the accessors .edges .mids .dz .left
+.right .closed .zmin .zmax .num_bins (read; computed on out of place or on copies), to_dict / from_dict, to_file(s) and reading back,
+copy / deepcopy / Binning.copy, pickle, get_centers, sample / sample_patch_sum / get_array, normalised, RedshiftData.from_corrfuncs /
+from_corrdata, modify (and a histogram with the modified configuration), + - * of results - then build_trees / HistData.from_catalog /
+autocorrelate / crosscorrelate with the SAME configuration object (same or fresh catalog).  Compared in Coq (Model/BinningLook.v:
+c10_look_case, C10_look_case_sound) with the closed-side rule for the edges the configuration was CREATED with (the harness's own copy of the
+numbers, never read back from the object) and with what the configuration reports afterwards (closed side, edges; bit patterns on the python
+side as well).  Redshifts sit on the created edges and within (half) the shifts the arguments of the history could produce.  Model: a heap of
+arrays, accessors that hand out the stored array / a view (alias) or a new array, in-place updates versus new arrays:
+C10_look_copying_keeps_edges, C10_look_nowrite_keeps_edges, C10_look_safe_member (every later measurement uses the created edges),
+C10_look_aliasing_refuted (for every binning, closed side and shift d > 0: `x = binning.edges; x += d`, also inside plot(style=step,
+xoffset=d), moves the stored edges and a redshift of the first bin ends in no bin).
 """
 import copy
 import itertools
@@ -119,6 +135,12 @@ TRUSTED = [
     "the float64 edge array handed to yaw is computed with exact integer arithmetic in units of 2^-20 and is the array seg_edges builds in Coq "
     "(same lo, steps and counts; every value is checked to be exactly representable); python-side expected values (expected_sparse) "
     "only word the report of a failure (which bins, which kind), the verdict is the Coq code",
+    "look family: the call that changed the configured binning is named by comparing, on the python side, the bytes of the edges and "
+    "the closed side the configuration reports before and after every call (this words the signature and the report); the verdict is "
+    "the Coq code of c10_look_case on the exact rational values, and the final byte comparison with the harness's own copy of the numbers; "
+    "matplotlib runs with the Agg backend (no display), what is drawn is not inspected; the what-if reading handed to Coq (which plotted "
+    "results share memory with the configuration's edges: np.shares_memory; which style draws against the edges: 'step', HistData's default) "
+    "is used for the wording of a failure only (flag 6 of c10_look_case)",
 ]
 ASSUMPTIONS = [
     "redshifts, edges and weights are dyadic rationals with few bits, so every float64 sum is exact and is compared with Qeq_bool "
@@ -142,6 +164,13 @@ ASSUMPTIONS = [
     "large family: for generated edges (zmin, zmax, num_bins, method linear) the case is evaluated when the edge array the implementation "
     "reports equals the exact linear edges lo + k * step (step a power of two); otherwise it is counted and skipped, and more than 20% "
     "skipped cases break an obligation; the measurement uses angular scales (unit arcmin), the per-bin sum_weights do not depend on the scales",
+    "look family: every patch holds an object strictly inside the created binning; redshifts are the created edges, midpoints, outside values "
+    "and the edges moved by (half) the x-offsets / factors the history uses (arbitrary float64 values handed to Coq exactly, only compared), "
+    "weights have few bits; a call of the history that raises is counted (not a C10 failure) and more than 15% raising calls break an "
+    "obligation; the harness never writes into an array handed out by the library (C10 does not promise anything about a caller who does): it "
+    "computes out of place or on copies, so every change of the configured binning is the library's own doing; for edges generated by the "
+    "implementation (zmin, zmax, num_bins, linear) the case is evaluated when the edges reported right after creation are the exact linear "
+    "ones (otherwise counted and skipped, more than 20% skipped break an obligation; C15 judges generated edges)",
 ]
 RULE = ("cases = (closed side, weight column present, edges, per-patch lists of (redshift, weight), consumers observed, "
         "where the work is done: serial / real worker processes / pickling pool / transported binning); "
@@ -2560,6 +2589,8 @@ def run(ctx):
     run_near(ctx, near_specs(ctx))
     eval_near_eq(ctx, near_eq_records(ctx, ctx.n(6, 120)))
     eval_transports(ctx, transport_records(ctx))
+    from props import c10_looks
+    c10_looks.run_looks(ctx, c10_looks.look_specs(ctx))
 
 
 def replay(ctx, body):
@@ -2602,6 +2633,11 @@ def replay(ctx, body):
             eval_transports(ctx, [rec], name="ReplayTransport_C10")
             return
     spec = rp["spec"]
+    if spec.get("family") == "look":
+        from props import c10_looks
+        spec["patches"] = [[tuple(o) for o in objs] for objs in spec["patches"]]
+        c10_looks.run_looks(ctx, [spec], name="ReplayLooks_C10")
+        return
     if spec.get("family") == "history":
         spec["patches"] = [[tuple(o) for o in objs] for objs in spec["patches"]]
         run_history_family(ctx, [spec], name="ReplayHistory_C10")
